@@ -739,6 +739,13 @@ pub struct ExploreStats {
 /// `check(out)` returns a description if the execution violates the oracle.
 /// Returns the first violation (choice vector, description) if any.
 pub fn explore(run: &dyn Fn(&[u8]) -> Result<RunOut, String>, check: &dyn Fn(&RunOut) -> Option<String>, bound: usize, max_runs: u64, stats: &mut ExploreStats) -> Result<Option<(Vec<u8>, String, RunOut)>, String> {
+    explore_ordered(run, check, bound, max_runs, stats, false)
+}
+
+/// `explore` with a choice of order among the children of an execution: in execution order (`writes_first = false`), or
+/// preemptions at writes to shared locations before those at reads. The set of schedules is the same; only what a capped
+/// search reaches first differs.
+pub fn explore_ordered(run: &dyn Fn(&[u8]) -> Result<RunOut, String>, check: &dyn Fn(&RunOut) -> Option<String>, bound: usize, max_runs: u64, stats: &mut ExploreStats, writes_first: bool) -> Result<Option<(Vec<u8>, String, RunOut)>, String> {
     let mut stack: Vec<Vec<u8>> = vec![Vec::new()];
     while let Some(prefix) = stack.pop() {
         if stats.runs >= max_runs {
@@ -771,11 +778,21 @@ pub fn explore(run: &dyn Fn(&[u8]) -> Result<RunOut, String>, check: &dyn Fn(&Ru
         if used >= bound {
             continue;
         }
-        // children: flip one later branching point to 1 (everything in between stays 0)
-        for i in (prefix.len()..ch.len()).rev() {
-            let mut p = ch[..i].to_vec();
-            p.push(1);
-            stack.push(p);
+        // children: flip one later branching point to 1 (everything in between stays 0). The set of children is the same in
+        // any order; with `writes_first` preemptions right at a *write* to a shared location are tried first (a thread stopped between its write
+        // and whatever the write announces is where check-then-act and publish-before-ready defects show), then the reads,
+        // each class in execution order. Only the order in which a capped search spends its budget depends on this.
+        let kinds: Vec<u8> = out.points.iter().filter(|p| p.branching).map(|p| p.kind).collect();
+        for writes in [false, true] {
+            for i in (prefix.len()..ch.len()).rev() {
+                // (without `writes_first` everything goes in the first pass, in execution order)
+                let late = writes_first && kinds.get(i) == Some(&K_WRITE);
+                if late == writes {
+                    let mut p = ch[..i].to_vec();
+                    p.push(1);
+                    stack.push(p);
+                }
+            }
         }
     }
     Ok(None)
